@@ -11,17 +11,38 @@ import (
 
 // keyType is one string type used as a key type: an example and a rule set.
 type keyType struct {
-	slot    string // k0..k3: the name of the type in the schema (@k0 …) and the model predicate standing for it
-	ex      string
-	pat     string
-	re      *regexp.Regexp
-	min     int // -1: absent
-	max     int // -1: absent
-	enum    []string
-	typeStr bool     // carries `type: "string"` (changes nothing)
-	text    string   // schema text of the type
-	wire    []string // raw rules of the `semcf` request
-	kind    string   // none | enum | regex | minLength | regex+maxLength | …
+	slot string // k0..k3: the name of the type in the schema (@k0 …) and the model predicate standing for it
+	ex   string
+	pat  string
+	re   *regexp.Regexp
+	min  int // -1: absent
+	max  int // -1: absent
+	enum []string
+	typ  string   // explicit `type` rule: "" = none | "string" | "enum" | "email" | "uri" | "uuid" | "date" | "datetime"
+	cnst int      // const: 0 absent, 1 true, 2 false
+	null int      // nullable: 0 absent, 1 true, 2 false
+	text string   // schema text of the type
+	wire []string // raw rules of the `semcf` request
+	kind string   // none | enum | regex | minLength | regex+maxLength | type_email | enum+type_enum | … (const / nullable counted apart)
+}
+
+// format: the format the explicit `type` rule demands ("" = none: no type rule, "string", "enum").
+func (t *keyType) format() string {
+	switch t.typ {
+	case "email", "uri", "uuid", "date", "datetime":
+		return t.typ
+	}
+	return ""
+}
+
+// ruleFree: none of the type's rules survives compilation. `type: "string"` (the JSON kind of the example), `type:
+// "enum"` (says that there is an enum rule), `const: false` and `nullable: false` say what the type without rules says,
+// and the compiler drops them: such a type is the type WITHOUT RULES, which as a key type stands for its example (the
+// reading of this command from the start: model predicate k2 = the key "zz"; the unchanged tree follows it for all of
+// these spellings). Every other rule set — `nullable: true` included, which adds null to the values and no key —
+// admits exactly the keys the type accepts as a value.
+func (t *keyType) ruleFree() bool {
+	return t.enum == nil && t.re == nil && t.min < 0 && t.max < 0 && t.format() == "" && t.cnst != 1 && t.null != 1
 }
 
 // violated lists the rules of the type the key does not satisfy (a type without rules is its example).
@@ -36,7 +57,7 @@ func (t *keyType) violated(k string) []string {
 		if !in {
 			v = append(v, "enum")
 		}
-	case t.re == nil && t.min < 0 && t.max < 0:
+	case t.ruleFree():
 		if k != t.ex {
 			v = append(v, "example")
 		}
@@ -50,15 +71,27 @@ func (t *keyType) violated(k string) []string {
 		if t.max >= 0 && len(k) > t.max {
 			v = append(v, "maxLength")
 		}
+		if f := t.format(); f != "" && !fmtOK(f, k) {
+			v = append(v, "type_"+f)
+		}
+	}
+	if t.cnst == 1 && k != t.ex {
+		v = append(v, "const")
 	}
 	return v
 }
 
 func (t *keyType) accepts(k string) bool { return len(t.violated(k)) == 0 }
 
-// nRules: how many rules decide (type "string" does not).
+// nRules: how many rules decide (type "string" / "enum", nullable and const: false do not).
 func (t *keyType) nRules() int {
 	n := 0
+	if t.format() != "" {
+		n++
+	}
+	if t.cnst == 1 {
+		n++
+	}
 	if t.re != nil {
 		n++
 	}
@@ -110,10 +143,26 @@ func (t *keyType) finish(r *rand.Rand) {
 	if t.kind == "" {
 		t.kind = "none"
 	}
-	if t.typeStr {
-		rs = append(rs, `type: "string"`)
-		ws = append(ws, "t:other")
-		t.kind += "+type_string"
+	if t.typ != "" {
+		rs = append(rs, `type: "`+t.typ+`"`)
+		if f := t.format(); f != "" {
+			ws = append(ws, "t:"+f)
+		} else {
+			ws = append(ws, "t:other")
+		}
+		if t.kind == "none" {
+			t.kind = "type_" + t.typ
+		} else {
+			t.kind += "+type_" + t.typ
+		}
+	}
+	if t.cnst != 0 {
+		rs = append(rs, "const: "+strconv.FormatBool(t.cnst == 1))
+		ws = append(ws, "C"+b01(t.cnst == 1))
+	}
+	if t.null != 0 {
+		rs = append(rs, "nullable: "+strconv.FormatBool(t.null == 1))
+		ws = append(ws, "N"+b01(t.null == 1))
 	}
 	if r != nil { // the order of the rules in the annotation is free
 		r.Shuffle(len(rs), func(i, j int) { rs[i], rs[j] = rs[j], rs[i]; ws[i], ws[j] = ws[j], ws[i] })
@@ -127,10 +176,8 @@ func (t *keyType) finish(r *rand.Rand) {
 
 // oracleLine: the `semcf` request "does the string type accept this string token" (regex verdict as oracle bit).
 func (t *keyType) oracleLine(k string) string {
-	bits := "0000"
-	if t.re != nil && t.re.MatchString(k) {
-		bits = "1000"
-	}
+	// oracle bits: regexp match, net/mail, net/url, RFC 3339 — evaluated in Go on the key (protocol of sem-rules-full)
+	bits := b01(t.re != nil && t.re.MatchString(k)) + b01(mailOK(k)) + b01(uriOK(k)) + b01(datetimeOK(k))
 	dec := hexs(k)
 	if k == "" {
 		dec = "-"
@@ -161,10 +208,18 @@ var keyPatterns = []string{"^[a-z]+$", "^[a-z]", "[0-9]$", "^a", "b", "^.{2,3}$"
 
 var extraKeys = []string{"", "A", "AB", "a1", "abcd", "abcde", "zzz", "zzzz", "x", "k", "id", "a-b", "Abc", "ab1", "1", "12", "xyz", "B", "a b", "_", "e", "q"}
 
+// genKeyType draws a string type from everything a string type can carry: no rule at all, an enum rule, any non-empty
+// subset of regex / minLength / maxLength, a FORMAT type (`type: "email" | "uri" | "uuid" | "date" | "datetime"`, the
+// example a valid value of the format), next to them the explicit `type` rule that names what the type is anyway
+// (`type: "string"`, `type: "enum"` beside an enum rule) and const / nullable, true or false. Combinations the checker
+// refuses (a format type with a length / regex / enum rule) are not string types and are not drawn.
 func genKeyType(r *rand.Rand) *keyType {
 	t := &keyType{ex: keyWords[r.Intn(len(keyWords))], min: -1, max: -1}
 	switch k := r.Intn(20); {
-	case k < 2: // no rules
+	case k < 2: // no deciding rule
+		if r.Intn(3) == 0 {
+			t.typ = "string"
+		}
 	case k < 5: // enum
 		t.enum = []string{t.ex}
 		for i := r.Intn(4); i > 0; i-- {
@@ -181,6 +236,12 @@ func genKeyType(r *rand.Rand) *keyType {
 			}
 		}
 		r.Shuffle(len(t.enum), func(i, j int) { t.enum[i], t.enum[j] = t.enum[j], t.enum[i] })
+		if r.Intn(2) == 0 {
+			t.typ = "enum"
+		}
+	case k < 10: // a format type
+		t.typ = fmtNames[r.Intn(len(fmtNames))]
+		t.ex = fmtExample(r, t.typ)
 	default:
 		// a non-empty subset of {regex, minLength, maxLength}; two or three rules 3 times in 4
 		var m int
@@ -209,7 +270,20 @@ func genKeyType(r *rand.Rand) *keyType {
 		if m&4 != 0 {
 			t.max = L + r.Intn(3)
 		}
-		t.typeStr = r.Intn(6) == 0
+		if r.Intn(5) == 0 {
+			t.typ = "string"
+		}
+	}
+	// const / nullable: one type in three from the 3 x 3 grid absent / true / false, else rarely
+	if r.Intn(3) == 0 {
+		t.null, t.cnst = r.Intn(3), r.Intn(3)
+	} else {
+		if r.Intn(5) == 0 {
+			t.null = 1 + r.Intn(2)
+		}
+		if r.Intn(6) == 0 {
+			t.cnst = 1 + r.Intn(2)
+		}
 	}
 	t.finish(r)
 	return t
@@ -247,7 +321,16 @@ func (t *keyType) candidates(r *rand.Rand) []string {
 			out = append(out, b[:t.min-1], b[len(b)-t.min+1:])
 		}
 	}
-	return out
+	if f := t.format(); f != "" {
+		out = append(out, fmtProbes(r, f)...)
+	}
+	var keep []string
+	for _, k := range out {
+		if keyOK(k) {
+			keep = append(keep, k)
+		}
+	}
+	return keep
 }
 
 // keyCtx: the key types of one table, its pool of document keys and the renaming into the model's vocabulary.
@@ -265,7 +348,14 @@ type keyCtx struct {
 	dropped  int                 // candidate keys left out because no model key has their verdict vector
 	oracle   []string            // semcf requests …
 	oracleGo []bool              // … and the verdict computed in Go
+	pairs    []keyPair           // every (generated type, pool key) with the verdict computed in Go
 	stats    []string
+}
+
+type keyPair struct {
+	t   *keyType
+	key string
+	ok  bool
 }
 
 var slotNames = []string{"k0", "k1", "k2", "k3"}
@@ -437,6 +527,21 @@ func newKeyCtx(r *rand.Rand) *keyCtx {
 		t.slot = slotNames[assign[i]]
 		kc.bySlot[t.slot] = t
 		kc.stats = append(kc.stats, "key_type_rules_"+t.kind, "key_type_rule_count_"+strconv.Itoa(t.nRules()))
+		if t.typ != "" {
+			kc.stats = append(kc.stats, "key_type_with_explicit_type_rule")
+		}
+		if f := t.format(); f != "" {
+			kc.stats = append(kc.stats, "key_type_format")
+		}
+		if t.cnst != 0 {
+			kc.stats = append(kc.stats, "key_type_const_"+strconv.FormatBool(t.cnst == 1))
+		}
+		if t.null != 0 {
+			kc.stats = append(kc.stats, "key_type_nullable_"+strconv.FormatBool(t.null == 1))
+		}
+		if t.ruleFree() && (t.typ != "" || t.cnst != 0 || t.null != 0) {
+			kc.stats = append(kc.stats, "key_type_whose_rules_all_say_what_no_rule_says")
+		}
 	}
 	// the renaming: a key keeps its own spelling when that is a model key of a fitting class
 	taken := map[string]bool{}
@@ -510,9 +615,12 @@ func newKeyCtx(r *rand.Rand) *keyCtx {
 			case 1:
 				kc.nearMiss[t.slot] = append(kc.nearMiss[t.slot], k)
 			}
-			if !kc.fixed && t.kind != "none" {
-				kc.oracle = append(kc.oracle, t.oracleLine(k))
-				kc.oracleGo = append(kc.oracleGo, len(v) == 0)
+			if !kc.fixed {
+				kc.pairs = append(kc.pairs, keyPair{t, k, len(v) == 0})
+				if !t.ruleFree() { // the rule model speaks of VALUES: a type without rules accepts every string
+					kc.oracle = append(kc.oracle, t.oracleLine(k))
+					kc.oracleGo = append(kc.oracleGo, len(v) == 0)
+				}
 			}
 		}
 		if !any {
